@@ -799,6 +799,12 @@ func (r *resolver) expandAugment(y *Augment, parent Meta) error {
 	for _, orig := range y.DataDefinitions() {
 		var err error
 		d := orig.(cloneable).clone(target).(Definition)
+		if y.when != nil {
+			// augment's condition guards every node it adds
+			if hasWhen, valid := d.(HasWhen); valid && hasWhen.When() == nil {
+				hasWhen.setWhen(y.when)
+			}
+		}
 		if targetIsChoice {
 			if cs, isCase := d.(*ChoiceCase); isCase {
 				if err = targetChoice.addCase(cs); err != nil {
